@@ -5,11 +5,12 @@ import re
 
 from .. import f1, f2, gen, wasm, cexec, e2e
 from ..choice import Chooser
+from ..wasm import Module, Func, I32, I64, F32, F64
 
 ID = 'C08'
 LEVEL = 'exploration'
 RULE = ('metamorphic: a generated module M (expr/ctrl/calls/mem/inst/consts generators, incl. passive + active data segments, '
-        'element segments, start, name section) is encoded k times (quick 4, thorough 12) with spec-equivalent variations: every '
+        'element segments, start, name section; and sparse modules made of any few sections - no functions, only a memory with data, only globals, the empty module) is encoded k times (quick 4, thorough 12) with spec-equivalent variations: every '
         'LEB128 size/count/index/immediate field padded up to its maximum legal length (correct sign/zero extension), custom '
         'sections with arbitrary names/content inserted at any section boundary, active data segments as flag 0 or flag 2 + '
         'memory index 0, empty sections present or omitted, optional DataCount section. All encodings are translated by the same '
@@ -46,6 +47,51 @@ def translate_defs(wb, opts=(), variant='plain'):
         return tr, defs, files
     finally:
         cexec.rm(d)
+
+
+@f1.maker('c08_sparse')
+def make_sparse(ch, params):
+    """modules made of FEW sections: any subset of {types, imports, functions+code, table, memory, globals, exports, start, elements,
+    data (active / passive)} that is still valid - no functions at all, only a memory with data, only globals, only imports, the empty
+    module.  Which sections are absent, empty or present (and whether a DataCount section stands in front of an absent code
+    section) is the encoder's business; the module is the same"""
+    m = Module()
+    T = m.type_index
+    has = lambda: ch.below(2) == 0
+    if has():
+        m.imports.append((b'env', b'g', 'global', (I32, False)))
+    if has():
+        m.imports.append((b'env', b'h', 'func', T((I32,), (I32,))))
+    nf = ch.pick((0, 0, 0, 1, 2))
+    for i in range(nf):
+        m.funcs.append(Func(T((I32,), (I32,)), [], [('local.get', 0), ('i32.const', i + 1), ('i32.add',)]))
+    if has():
+        m.memory = (1, ch.pick((None, 1, 2)))
+        for s_ in range(ch.below(3)):
+            m.datas.append(('active', ('i32.const', 16 * s_), bytes([0x41 + s_]) * (1 + ch.below(6))) if ch.below(3) else ('passive', None, b'pp'))
+    if has():
+        m.table = (4, None)
+        if nf and has():
+            m.elems.append((('i32.const', 1), [m.n_imported_funcs()]))
+    for g in range(ch.below(3)):
+        m.globals.append((ch.pick((I32, I64, F32, F64)), bool(ch.below(2)), None))
+        t = m.globals[-1][0]
+        m.globals[-1] = (t, m.globals[-1][1], ('%s.const' % t, 1 + g))
+    ni = m.n_imported_funcs()
+    for i in range(nf):
+        if has():
+            m.exports.append((b'f%d' % i, 'func', ni + i))
+    if m.memory is not None and has():
+        m.exports.append((b'mem', 'memory', 0))
+    if ch.below(3) == 0:
+        m.datacount = True              # optional section in front of a possibly absent code section
+    script = e2e.default_setup(m, 1)
+    fex = [(n, i) for n, kd, i in m.exports if kd == 'func']
+    for e, (n, fi) in enumerate(fex):
+        script.append(('call', 0, e, [ch.below(1000)]))
+    if m.memory is not None and any(kd == 'memory' for n, kd, i in m.exports):
+        script.append(('mem', 0))
+    return m, script, {'ninst': 1}
 
 
 def make_knobs(ch):
@@ -102,7 +148,7 @@ def task(wid, seed, params):
            'infra': [], 'extra': collections.Counter()}
     for ci in range(params['ncases']):
         ch = Chooser(seed * 1000003 + ci)
-        mk = f2.GENERAL_MAKERS[(wid + ci) % len(f2.GENERAL_MAKERS)]
+        mk = (f2.GENERAL_MAKERS + ['c08_sparse'])[(wid + ci) % (len(f2.GENERAL_MAKERS) + 1)]
         try:
             m, script, meta = f1.MAKERS[mk](ch, {'nfuncs': 10, 'nargs': 3, 'nsteps': 30, 'nconst': 80})
             wasm.validate(m)
